@@ -143,6 +143,25 @@ func ints(xs []int) string {
 	return strings.Join(ss, ",")
 }
 
+func atoi(s string) int {
+	n, err := strconv.Atoi(s)
+	if err != nil {
+		panic(err)
+	}
+	return n
+}
+
+func unints(s string) []int {
+	if s == "-" {
+		return nil
+	}
+	var xs []int
+	for _, f := range strings.Split(s, ",") {
+		xs = append(xs, atoi(f))
+	}
+	return xs
+}
+
 func b01(b bool) string {
 	if b {
 		return "1"
@@ -208,4 +227,33 @@ func TestFamily(t *testing.T) {
 	r.Flush(t)
 }
 
-var families = map[string]func(*testing.T, *Rec){}
+var families = map[string]func(*testing.T, *Rec){"exec": famExec}
+
+// interpreters by first token of an op line
+var interpreters = map[string]func() interface{ Exec(string) string }{}
+
+// famExec replays an op file (VERIF_OPS) on the implementation.
+func famExec(t *testing.T, r *Rec) {
+	b, err := os.ReadFile(os.Getenv("VERIF_OPS"))
+	if err != nil {
+		t.Fatal(err)
+	}
+	live := map[string]interface{ Exec(string) string }{}
+	for _, line := range strings.Split(strings.TrimSpace(string(b)), "\n") {
+		f := strings.Fields(line)
+		if len(f) == 0 {
+			continue
+		}
+		it, ok := live[f[0]]
+		if !ok {
+			mk, ok2 := interpreters[f[0]]
+			if !ok2 {
+				r.Op(line, "bad-op")
+				continue
+			}
+			it = mk()
+			live[f[0]] = it
+		}
+		r.Op(line, it.Exec(line))
+	}
+}
